@@ -49,6 +49,10 @@ Theorem compile_block_correct :
         | RNormal st' l' vs' =>
             vs' = [] /\ exists n M', nsteps art mhost codes n M = SNext M'
                        /\ rel art fidx (map fst (c_consts sF)) nl (c_next sF) cap sF st' l' [] M' /\ frame_eq M M'
+        | RReturn st' _ =>
+            exists n M', nsteps art mhost codes n M = SNext M' /\ frame_eq M M' /\ ms_idx M' = fidx
+              /\ code_at (build_code (c_out sF ++ rest_code) xH (PositiveMap.empty N)) (ms_pc M') [IReturn]
+              /\ Forall2 repr (ms_globals M') (s_globals st') /\ mem_rel art cap (ms_mem M') (s_mem st')
         | RTrap => exists n e, nsteps art mhost codes n M = STrap e
         | RBr _ _ _ _ => False
         | _ => True
@@ -91,12 +95,12 @@ Proof.
   { intros st1 l1 M1 R1. exists O, M1. split; [reflexivity|]. split; [apply frame_eq_refl|].
     eapply rel_transfer; [exact R1|rewrite E3, E4; reflexivity|exact E8]. }
   assert (Hrest : forall st1 l1 M1, rel art fidx consts nl NR cap sF st1 l1 [] M1 ->
-            sim_res art mhost codes fidx consts nl NR cap [] M1 sF (exec_seq host cap m 1 st1 l1 [] [])).
+            sim_res art mhost codes fidx c consts nl NR cap [] M1 sF (exec_seq host cap m 1 st1 l1 [] [])).
   { intros st1 l1 M1 R1. cbn. exists O, M1. split; [reflexivity|]. split; [exact R1|apply frame_eq_refl]. }
-  assert (Hab : sim_res art mhost codes fidx consts nl NR cap [] M sF
+  assert (Hab : sim_res art mhost codes fidx c consts nl NR cap [] M sF
                   (match blk (exec_seq host cap m f st locals [] is) with
                    | RNormal s1 l1 st1 => exec_seq host cap m 1 s1 l1 st1 [] | r => r end)).
-  { eapply (sim_after_body art mhost codes fidx consts nl NR cap host m F); [exact Hsim|exact E3|exact E4|exact E8|exact Hbridge|exact Hrest]. }
+  { eapply (sim_after_body art mhost codes fidx c consts nl NR cap host m F); [exact Hsim|exact E3|exact E4|exact E8|exact Hbridge|exact Hrest]. }
   rewrite E_block.
   destruct (exec_seq host cap m f st locals [] is) as [st1 l1 vs1|[|k] st1 l1 vs1| | | |]; cbn in Hab |- *; auto.
   - destruct Hab as (e & n & M' & Ee & _). destruct k; discriminate.
